@@ -9,6 +9,7 @@ use std::cmp::Ordering;
 
 fn lib_contains(ctx: &mut Ctx, a: &[u8], b: &[u8], info: &dyn Fn() -> String) -> Option<bool> {
     ctx.count("contains.calls");
+    ctx.evals += 1;
     match guard(|| jsonb::contains(a, b)) {
         Err(p) => {
             ctx.panic_violation("contains", &p, info);
